@@ -154,10 +154,12 @@ package sam
 //@ func ReaderHeader
 //@   props C06 C07 C11 C18
 //@   yields Y
+//@   witness br
+//@   ensures !stopped && br.fault ==> len(Y) > 0 && Y[len(Y)-1].1 == br.err
 //@   ensures forall t int :: 0 <= t && t < len(Y) ==> Y[t].1 != 1
 //@   ensures forall t int :: 0 <= t && t < len(Y) && ioErr(Y[t].1) ==> t == len(Y)-1
 //@   loop 1
-//@     invariant br.pos <= br.end
+//@     invariant br.pos <= br.end && !br.fired
 //@     invariant forall t int :: 0 <= t && t < len(Y) ==> Y[t].1 == nil || localErr(Y[t].1)
 //@     decreases (br.end - br.pos) + (br.fired ? 0 : 1) + (br.fault && br.forever ? 1 : 0)
 
